@@ -199,6 +199,8 @@ func execStep(w *world.World, s Step) bool {
 		// on: nothing about the running session may change
 		other, _ := world.DSAKey("X")
 		p.Conv.SetOurKeys([]otr3.PrivateKey{other, p.Priv})
+	case "Reinstall":
+		w.Reinstall(p, "X")
 	case "Recover":
 		// as a user would: while the two sides are not in one encrypted session, end and start over
 		for k := 0; k < 4; k++ {
@@ -456,6 +458,22 @@ func genSchedule(rng *rand.Rand, family string, depth int) *Schedule {
 			for k := 0; k < 5; k++ {
 				add(Step{A: "Deliver", P: "A"})
 				add(Step{A: "Deliver", P: "B"})
+			}
+			if rng.Intn(2) == 0 {
+				// ... or for real: the session is ended on both sides, p's user starts over with a fresh
+				// conversation that signs with a new key; the other side keeps its conversation
+				add(Step{A: "End", P: "A"})
+				add(Step{A: "Deliver", P: "B"})
+				add(Step{A: "End", P: "B"})
+				add(Step{A: "Deliver", P: "A"})
+				add(Step{A: "Reinstall", P: p})
+				add(Step{A: "Tick", P: "A"})
+				add(Step{A: "Tick", P: "B"})
+				add(Step{A: "Query", P: ps[rng.Intn(2)]})
+				for k := 0; k < 5; k++ {
+					add(Step{A: "Deliver", P: "A"})
+					add(Step{A: "Deliver", P: "B"})
+				}
 			}
 		} else if rng.Intn(3) == 0 {
 			add(Step{A: "SetKeys", P: ps[rng.Intn(2)]})
